@@ -803,6 +803,21 @@ func (x *Exec) loopGhostInit(fr *Frame, b *ssa.BasicBlock, ord int, lc *LoopCont
 			if v.Const != nil {
 				v = ec.coerceConst(v, tInt)
 			}
+			if t, isT := v.V.(*Term); isT && t.sort.K == KBool && t.hasQ {
+				// a quantified proposition: bind the ghost to a propositional atom defined by it (both directions, each
+				// with its own polarity), so that invariants mentioning the ghost stay propositional in it
+				atom := x.tb.Fresh(name+"!g", SBool)
+				d1 := x.tb.Implies(atom, t)
+				ecn := x.loopCtx(fr, b, st, true)
+				d2 := x.tb.Implies(ecn.Bool(g.Exprs[1]), atom)
+				if st.keep == nil {
+					st.keep = map[int]bool{}
+				}
+				st.keep[d1.id], st.keep[d2.id] = true, true
+				st.Assume(d1)
+				st.Assume(d2)
+				v.V = atom
+			}
 			fr.ghostLocal[name] = v.V
 			if x.ghostDecl == nil {
 				x.ghostDecl = map[string]types.Type{}
